@@ -314,6 +314,25 @@ void ClipperOffset::OffsetPoint(Group& group, const Path64& path, size_t j, size
 
 	if (path[j] == path[k]) return;
 
+#ifdef CLIPPER2_VERIF
+	struct VerifReport
+	{
+		ClipperOffset& co; const Path64& p; size_t j, k, n0;
+		~VerifReport()
+		{
+			if (!verif::offset_fn) return;
+			const long long v[15] = { p[k].x, p[k].y, p[j].x, p[j].y,
+				std::llround(co.norms[k].x * 1000), std::llround(co.norms[k].y * 1000),
+				std::llround(co.norms[j].x * 1000), std::llround(co.norms[j].y * 1000),
+				std::llround(co.group_delta_ * 1000), static_cast<long long>(co.join_type_),
+				static_cast<long long>(co.end_type_), std::llround(co.miter_limit_ * 1000), 0, 0, 0 };
+			std::vector<long long> pts;
+			for (size_t i = n0; i < co.path_out.size(); ++i) { pts.push_back(co.path_out[i].x); pts.push_back(co.path_out[i].y); }
+			verif::offset_fn(v, pts.data(), static_cast<int>(pts.size() / 2));
+		}
+	} verif_report{ *this, path, j, k, path_out.size() };
+#endif
+
 	double sin_a = CrossProduct(norms[j], norms[k]);
 	double cos_a = DotProduct(norms[j], norms[k]);
 	if (sin_a > 1.0) sin_a = 1.0;
